@@ -86,7 +86,7 @@ func VP_C03_policy() {
 
 //vp:property C03 C04
 //vp:set s 3 5
-//vp:bounds requested host, token host, token address, presenting address: strings of <= s bytes; client-address attribute present-as-string / absent / non-string; both settings of VerifyClientIP; the inner policy is an arbitrary accept/refuse
+//vp:bounds requested host, token host, token address, presenting address: strings of <= s bytes; client-address attribute present-as-string / absent / non-string; both settings of VerifyClientIP; every host selection mode (any, signed, roundrobin, unsigned, unset); the inner policy is an arbitrary accept/refuse
 //vp:reach accept refuse-host refuse-addr
 func VP_C04_session() {
 	n := vpParam("s")
@@ -94,6 +94,8 @@ func VP_C04_session() {
 	thost := vpString("thost", n)
 	taddr := vpString("taddr", n)
 	VerifyClientIP = vpBool("verify")
+	// the configured host selection mode must not matter to the token checks
+	HostSelection = []string{"any", "signed", "roundrobin", "unsigned", ""}[vpIntRange("hostselection", 0, 4)]
 	id := identity.NewUser()
 	attr := vpIntRange("attr", 0, 2)
 	caddr := ""
